@@ -338,6 +338,8 @@ def fresh(kind, name, ctx=(), facts=None):
     `facts` collects z3 Bools that hold for the fresh value (lengths >= 0, byte ranges)."""
     if facts is None:
         facts = []
+    if not isinstance(kind, Kind):
+        return kind      # a concrete value fixed by the contract (scope restriction)
     if isinstance(kind, KByte):
         t = _leaf(z3.IntSort(), name, ctx)
         facts.append(z3.And(t >= 0, t <= 255))
